@@ -2,7 +2,9 @@
 package props
 
 import (
+	_ "verif/props/c03"
 	_ "verif/props/c15"
 	_ "verif/props/c16"
 	_ "verif/props/c17"
+	_ "verif/props/c19"
 )
